@@ -42,7 +42,7 @@ func caseGen() *rapid.Generator[Case] {
 	key := rapid.Custom(func(t *rapid.T) gen.Item {
 		return gen.S(gen.StringOf([]string{"k", "h1", "h2", "h3", "name", "x y", "é", "\"q\""}, 1, 2).Draw(t, "key"))
 	})
-	opts := gen.ScriptOpts{Item: itemGen(), HdrItem: key, MinOps: 0, MaxOps: max, MaxCells: 3, HdrCells: [2]int{1, 5}, ForceHdr: true, MultiHdr: true, AllowMutate: true, AllowCopy: true, Creators: Creators}
+	opts := gen.ScriptOpts{AllowProps: true, AllowRowErr: true, Item: itemGen(), HdrItem: key, MinOps: 0, MaxOps: max, MaxCells: 3, HdrCells: [2]int{1, 5}, ForceHdr: true, MultiHdr: true, AllowMutate: true, AllowCopy: true, Creators: Creators}
 	withHdr := gen.ScriptGen(opts)
 	opts.ForceHdr = false
 	anyHdr := gen.ScriptGen(opts)
@@ -59,6 +59,7 @@ func caseGen() *rapid.Generator[Case] {
 		c.Align = rapid.SliceOfN(rapid.IntRange(0, 3), 0, 5).Draw(t, "align")
 		c.Skip = rapid.SliceOfN(rapid.IntRange(0, 2), 0, 5).Draw(t, "skip")
 		c.Poison = rapid.IntRange(0, 3).Draw(t, "poison") == 0
+		c.AppCB = rapid.SampledFrom([]int{0, 0, 0, 1, 1, 2}).Draw(t, "appcb")
 		if rapid.IntRange(0, 3).Draw(t, "props?") == 0 {
 			c.Props = gen.PropHistGen(8).Draw(t, "props")
 		}
